@@ -33,7 +33,7 @@ def executed_lines():
 @st.composite
 def program(draw, nmax=8, kinds=('call', 'await', 'map', 'amap', 'wait'), immediate_only=False,
             forced_flush=True, fail_p=4, with_foreign=0, shutdown=False,
-            foreign_ops=('call', 'call', 'map', 'await'), foreign_waits=True):
+            foreign_ops=('call', 'call', 'map', 'await'), foreign_waits=True, foreign_wait_cancel=None):
     T = draw(st.sampled_from([0.25, 1.0]))
     fdur = draw(st.sampled_from([0, 0, T / 2, 2 * T]))
     fails = [i for i in range(1, 7) if draw(st.integers(0, 15)) < fail_p]
@@ -74,9 +74,9 @@ def program(draw, nmax=8, kinds=('call', 'await', 'map', 'amap', 'wait'), immedi
         gap = draw(st.sampled_from(grid)) if i else 0.0
         follow = bool(prog) and prog[-1]['op'] == 'wait' and 'call' in kinds and draw(st.integers(0, 1)) == 0
         if follow:
-            gap = 0.0      # a submission landing inside the wait()'s own join / yield / cancel steps
+            gap = 0.0      # a submission (or a second wait) landing inside the wait()'s own join / yield / cancel steps
         t += gap
-        op = one_op(t, ('call',) if follow else kinds)
+        op = one_op(t, (('call', 'call', 'wait') if 'wait' in kinds else ('call',)) if follow else kinds)
         if i and gap == 0:
             # same virtual instant as the previous op: choose how many loop iterations later it happens
             # (more often right after a wait(): its join / sleep(0) / cancel steps are one iteration apart)
@@ -102,14 +102,16 @@ def program(draw, nmax=8, kinds=('call', 'await', 'map', 'amap', 'wait'), immedi
             else:
                 fp.append({'gap': gap, 'op': 'await', 'x': base + r, 'delay': draw(st.sampled_from([0, U])), 'fail': False})
             if foreign_waits and draw(st.integers(0, 2)) == 0:
-                fp.append({'gap': draw(st.sampled_from([0, 0, U])), 'op': 'wait', 'cancel': draw(st.booleans())})
+                fp.append({'gap': draw(st.sampled_from([0, 0, U])), 'op': 'wait',
+                           'cancel': draw(st.booleans()) if foreign_wait_cancel is None else foreign_wait_cancel})
         foreign.append(fp)
     sd = None
     if shutdown:
         lm = sorted({0, T, fdur, T + fdur, t, t + T, t + T + fdur})
         sd = max(0.0, draw(st.sampled_from(lm)) + draw(st.sampled_from([0, U, -U, T / 2, fdur / 2 if fdur else U])))
     out = {'T': T, 'form': draw(st.sampled_from(['direct', 'direct', 'deco-opts'])), 'fdur': fdur, 'fails': fails,
-           'prog': prog, 'foreign': foreign, 'shutdown': sd}
+           'prog': prog, 'foreign': foreign, 'shutdown': sd,
+           'func_fail_kind': draw(st.sampled_from(['exc', 'exc', 'exc', 'cancel', 'base']))}
     if shutdown:
         waits = [o['at'] for o in prog if o['op'] == 'wait']
         if waits and draw(st.integers(0, 2)) == 0:
@@ -167,6 +169,8 @@ def valid(case):
             return False
         if not (0 <= case.get('shutdown_iters', 0) <= 8):
             return False
+        if case.get('func_fail_kind', 'exc') not in ('exc', 'cancel', 'base'):
+            return False
         return case.get('form', 'direct') in ('direct', 'deco-opts')
     except (KeyError, TypeError, IndexError):
         return False
@@ -183,6 +187,8 @@ def simplify(case):
         yield dict(copy.deepcopy(case), fdur=0)
     if case.get('form') != 'direct':
         yield dict(copy.deepcopy(case), form='direct')
+    if case.get('func_fail_kind', 'exc') != 'exc':
+        yield dict(copy.deepcopy(case), func_fail_kind='exc')
     for i, o in enumerate(case['prog']):
         if o['op'] in ('map', 'amap') and (o.get('fail_at') is not None or o.get('delay')):
             n = copy.deepcopy(case)
